@@ -842,6 +842,39 @@ func scenarioHeavy(seed int64, idx int) ScenarioOut {
 		dst.violate("C14", key, fmt.Sprintf("vertex %d on the tip of weight %d: source answers %s, loaded node %s; source weight/throughput %d/%d, loaded %d/%d",
 			w.H(fv.Hash), top.Weight, r1, r2, srcPrev.Weight, srcPrev.Throughput, dstPrev.Weight, dstPrev.Throughput))
 	}
+	// C13: two parents-first orders of the same four valid vertices end in different ledgers (the order of INDEPENDENT vertices
+	// decides whether the light tip passes the weight window): A heavy and B light on genesis, C on A, D on B
+	n1 := newNode(w, fmt.Sprintf("heavy%d.abcd", idx), w.wallets[0])
+	defer n1.close()
+	n2 := newNode(w, fmt.Sprintf("heavy%d.abdc", idx), w.wallets[0])
+	defer n2.close()
+	if loadInto(n1, []*accountant.Vertex{gv}, w) && loadInto(n2, []*accountant.Vertex{gv}, w) {
+		mk := func(subject string, parent *accountant.Vertex, weight uint64) *accountant.Vertex {
+			t := craftTrx(s.recvRich, s.users[1].Address(), subject, nil, spice.Melange{Currency: 1}, s.now())
+			v, _ := accountant.NewVertex(t, parent.Hash, parent.Hash, weight, sealer)
+			w.remember(&v)
+			return &v
+		}
+		a := mk("A", gv, 1000000+uint64(idx))
+		b := mk("B", gv, 1)
+		c := mk("C", a, 1000001+uint64(idx))
+		d := mk("D", b, 2)
+		for _, v := range []*accountant.Vertex{a, b, c, d} {
+			n1.add(v, -1)
+		}
+		for _, v := range []*accountant.Vertex{a, b, d, c} {
+			n2.add(v, -1)
+		}
+		g1, g2 := w.canon(&n1.prev), w.canon(&n2.prev)
+		if ints(g1.Dag) != ints(g2.Dag) || pairs(g1.Edges) != pairs(g2.Edges) {
+			key := "not-confluent"
+			if n1.prev.Weight >= 1000000 { // the heavy tip was validated before the light one on the first node
+				key = "not-confluent:weight-window"
+			}
+			n2.violate("C13", key, fmt.Sprintf("the same four valid vertices delivered parents-first in the orders A,B,C,D and A,B,D,C end with vertices %v and %v", g1.Dag, g2.Dag))
+		}
+		s.nodes = append(s.nodes, n1, n2)
+	}
 	o := s.out("heavy", true)
 	o.NonTriv = true
 	return o
